@@ -123,7 +123,7 @@ func checkC11(c *Ctx) error {
 	return runLexCheck(c, &lexCheckSpec{
 		id: "C11",
 		opts: func(r *rng.R) specgen.LexOpts {
-			return specgen.LexOpts{Wide: r.Chance(1, 3), Modes: r.Chance(2, 3), Frags: true, Macros: r.Chance(1, 3), NullablePct: 35, MaxRules: 5, BothModeActions: true}
+			return specgen.LexOpts{Wide: r.Chance(1, 3), Modes: r.Chance(2, 3), Frags: true, Macros: r.Chance(1, 3), NullablePct: 35, MaxRules: 5, BothModeActions: true, LoopOnlyModes: true}
 		},
 		nBatches: [2]int{3, 40}, nCLI: [2]int{1, 5}, per: 28,
 		nInputs: [2]int{200, 600}, exhLen: [2]int{5, 6},
